@@ -43,6 +43,23 @@ def generate(seed, tier):
                       # verbose output
                       'anc_spec': rng.choice([None, None, 'h5py', 'numpy', 'dask']), 'chunked': rng.random() < 0.3,
                       'verbose': rng.random() < 0.2})
+    # as many dimensions as points on a side (a SQUARE index matrix), at least two of them multi-valued
+    for j in range({'quick': 20, 'thorough': 120, 'search': 60}[tier]):
+        rng = derived_rng(seed, 'C10sq', j)
+        sizes = list(rng.choice([[2, 2, 1, 1], [2, 2, 1, 1], [2, 3, 1, 1, 1, 1]]))
+        if j % 4 >= 2:
+            rng.shuffle(sizes)
+        k = len(sizes)
+        rate = list(range(k))
+        if j % 4 in (1, 3):
+            rng.shuffle(rate)
+        sq, other = ('pos', 'spec') if j % 2 == 0 else ('spec', 'pos')
+        pre = 'P' if sq == 'pos' else 'S'
+        ds = {sq: {'sizes': sizes, 'rate': rate, 'labels': [pre + gen.LETTERS[d] for d in range(k)],
+                   'units': ['u%d' % d for d in range(k)], 'values': [list(range(3 * d, 3 * d + 4 * x, 4)) for d, x in enumerate(sizes)]},
+              other: {'sizes': [3], 'rate': [0], 'labels': ['Q' + pre], 'units': ['u'], 'values': [[2, 5, 9]]}, 'dtype': 'f8'}
+        cases.append({'ds': ds, 'anc': rng.choice(['h5py', 'numpy', 'dask']), 'squeeze': False, 'bad': None, 'pick': 0,
+                      'anc_spec': None, 'chunked': False, 'verbose': False, 'both_only': True})
     # images and single spectra: ONE point on a side whose axis has been squeezed out of the N-D array, the other side
     # with two or three multi-valued dimensions in EVERY storage order (fastest-first is the usual one)
     for j in range({'quick': 8, 'thorough': 60, 'search': 30}[tier]):
